@@ -587,7 +587,8 @@ PATTERNS = []
 def load_one(lit: LineIterator) -> dict:
     """Do not edit this docstring. It will be overwritten."""
     # Use python standard lib json module to read the file to a dict
-    json_in = json.load(lit.fh)
+    # The text is read through the line iterator, such that its line counter is right in error messages.
+    json_in = json.loads("".join(lit))
     return _parse_json(json_in, lit)
 
 
